@@ -118,7 +118,7 @@ theorem iterAdd_refines (it : Iter) (a : ArraySized) (c : Spec.SSeq.Cursor Elem)
       (a.iterAdd it e m).2.1 = it ∧ (a.iterAdd it e m).2.2.1 = a ∧ MemSame m (a.iterAdd it e m).2.2.2) := by
   have hsz := rel_size hrel
   obtain ⟨h1, h2, h3⟩ := hrel
-  rcases addAt_spec a e it.index m h he (by omega) with ⟨s1, s2, s3, s4, s5, s6, s7⟩ | ⟨s1, s2, s3, _⟩
+  rcases addAt_spec a e it.index m h he (by omega) with ⟨s1, s2, s3, s4, s5, s6, s7, _⟩ | ⟨s1, s2, s3, _⟩
   · left
     have e1 : a.iterAdd it e m = (.ok, { it with index := it.index + 1 }, (a.addAt e it.index m).2.1, (a.addAt e it.index m).2.2) := by
       unfold iterAdd; rw [if_pos s1, s1]
@@ -401,7 +401,7 @@ theorem addAt_room (a : ArraySized) (e : Buf Nat) (index : Nat) (m : Mem) (h : a
     (he : e.length = a.dataLen) (hi : index ≤ a.size) (hroom : a.size < a.capacity) :
     (a.addAt e index m).1 = .ok ∧ (a.addAt e index m).2.1.Inv ∧
     (a.addAt e index m).2.1.abs = a.abs.insertIdx index e ∧ MemSame m (a.addAt e index m).2.2 := by
-  rcases addAt_spec a e index m h he hi with ⟨s1, s2, s3, _, _, _, s7⟩ | ⟨_, _, _, s4, _⟩
+  rcases addAt_spec a e index m h he hi with ⟨s1, s2, s3, _, _, _, s7, _⟩ | ⟨_, _, _, s4, _⟩
   · exact ⟨s1, s2, s3, s7⟩
   · omega
 
@@ -434,14 +434,14 @@ theorem zipAdd_spec (it : Iter) (a1 a2 : ArraySized) (c : Spec.SSeq.ZipCursor El
   unfold zipAdd
   dsimp only
   rw [zipRoom_eq a1 m i1]
-  rcases ensureRoom_spec a1 m i1 with ⟨p1, p2, p3, p4, p5, p6, p7, p8, p9⟩ | ⟨p1, p2, p3, _⟩
+  rcases ensureRoom_spec a1 m i1 with ⟨p1, p2, p3, p4, p5, p6, p7, p8, p9, _⟩ | ⟨p1, p2, p3, _⟩
   · generalize a1.ensureRoom m = r1 at *
     obtain ⟨st1, b1, m1⟩ := r1
     dsimp only at *
     subst p1
     simp only [ne_eq, not_true_eq_false, if_false]
     rw [zipRoom_eq a2 m1 i2]
-    rcases ensureRoom_spec a2 m1 i2 with ⟨q1, q2, q3, q4, q5, q6, q7, q8, q9⟩ | ⟨q1, q2, q3, _⟩
+    rcases ensureRoom_spec a2 m1 i2 with ⟨q1, q2, q3, q4, q5, q6, q7, q8, q9, _⟩ | ⟨q1, q2, q3, _⟩
     · generalize a2.ensureRoom m1 = r2 at *
       obtain ⟨st2, b2, m2⟩ := r2
       dsimp only at *
